@@ -257,12 +257,41 @@ def parseTop (env : Env) (fuel : Nat) (t : Tok) (st : PS) : PR (Expr × PS) :=
       else if tk.k = .eoi then .ok (v, st1)
       else .err (synErr st1)
 
-/-- `NamedType(RuntimeNameAuthority, name, v)` as far as parsing observes it: which kind of type is created -/
+mutual
+/-- can the value be (part of) a hash key?  `appendKey` raises INVALID_HASH_KEY for a DeferredType (a type name that is not
+    yet resolved) and for a Deferred call, also inside arrays and hashes -/
+def Expr.keyable : Expr → Bool
+  | .dtype _ _ => false
+  | .call _ _ => false
+  | .named _ _ => false
+  | .arr es => Expr.keyableL es
+  | .hash es => Expr.keyableE es
+  | .entry k v => Expr.keyable k && Expr.keyable v
+  | _ => true
+def Expr.keyableL : List Expr → Bool
+  | [] => true
+  | e :: es => Expr.keyable e && Expr.keyableL es
+def Expr.keyableE : List (Expr × Expr) → Bool
+  | [] => true
+  | (k, v) :: es => Expr.keyable k && Expr.keyable v && Expr.keyableE es
+end
+
+/-- the keys of a hash literal are all usable as hash keys -/
+def keysKeyable : List (Expr × Expr) → Bool
+  | [] => true
+  | (k, _) :: es => Expr.keyable k && keysKeyable es
+
+/-- `NamedType(RuntimeNameAuthority, name, v)` as far as parsing observes it: which kind of type is created.
+    `type X = Object[{…}]` looks the parent up in the init hash (`extractParentName2` → `Hash.Get4`), which computes the hash
+    key of every KEY of the literal: a key that holds an unresolved type name or a call raises (INVALID_HASH_KEY, wrapped
+    into a parse error by `ParseFile`'s recover).  The other forms (`TypeSet[{…}]`, `Parent{…}`, `{…}`) do not look
+    anything up while parsing. -/
 def namedType (name : Str) (v : Expr) (st : PS) : PR Expr :=
   match v with
-  | .dtype n (some [.hash _]) =>
+  | .dtype n (some [.hash es]) =>
     if n = "Struct".toList then .ok (.named .alias name)
     else if n = "TypeSet".toList then .ok (.named .typeset name)
+    else if n = "Object".toList ∧ keysKeyable es = false then .err (synErr st)
     else .ok (.named .object name)
   | .dtype _ _ => .ok (.named .alias name)
   | .hash _ => .ok (.named .object name)
